@@ -213,6 +213,7 @@ struct Interp {
                 if (nctx + n > 250) { ctx.label("skipped:more-than-250-contexts"); continue; }
                 nctx += n;
                 for (long i = 0; i < n && i < 250; i++) { std::string nm = (i == 0 ? std::string("main") : "c" + std::to_string(at) + "_" + std::to_string(i)); LA(cf_register(nm.c_str(), i < 31 ? (int)i : 99)); } if (n > 20) ctx.label("context-table-grew"); }
+            else if (op.name == "regnull") { LA(cf_register("null", 7)); ctx.label("null-context-handler-replaced"); }   // the documented way to give the outermost level a handler of the application's own
             else if (op.name == "regbi") { long n = op.i(0);
                 // built-in ids are unsigned char as well: stay below 250 per cycle (the seven standard ones included)
                 if (nbi + n > 240) { ctx.label("skipped:more-than-240-builtins"); continue; }
@@ -321,7 +322,7 @@ rc::Gen<Case> gen_cycle() {
                 int k = (int)*range(0, 9);
                 std::string key = *rc::gen::elementOf(std::vector<std::string>{"k", "key2", "fromfile"});
                 if (k < 2) return mk("regctx", {*rc::gen::elementOf(std::vector<long>{1, 3, 19, 20, 21, 45, 170})});
-                if (k < 3) return mk("regbi", {*rc::gen::elementOf(std::vector<long>{1, 2, 3, 4, 14, 35})});
+                if (k < 3) return *range(0, 3) == 0 ? mk("regnull") : mk("regbi", {*rc::gen::elementOf(std::vector<long>{1, 2, 3, 4, 14, 35})});
                 if (k < 5) return mk("parse", {*rc::gen::elementOf(std::vector<long>{0, 0, 1, 2})});
                 if (k < 7) return mk("put", {}, {key, *rc::gen::elementOf(std::vector<std::string>{"v1", "v2", "x"})});
                 return mk("get", {}, {key});
